@@ -1,4 +1,4 @@
-SPECIFICATION MCSpec
+SPECIFICATION MCSpecHand
 CONSTANTS
   Cap = 2
   SegCaps = {1, 2, 3}
@@ -8,6 +8,6 @@ CONSTANTS
   MaxFails = 3
   MaxFaults = 5
   UseKeys = {"k1", "k2", "k3"}
-  MaxHand = 0
+  MaxHand = 3
   UseClients = {"c1", "c2"}
 CHECK_DEADLOCK FALSE
